@@ -137,12 +137,26 @@ def run(ctx):
     r4 = ctx.rule("C06.4", "every distinct expression of a parent is registered exactly once under the looked-up key", floor=3)
     ea = m.func("Scheduler._evaluate_apply")
     c2 = CFG(ea)
-    reg = [n for n in c2.nodes if n.kind == "stmt" and isinstance(n.ast, ast.Assign) and any(isinstance(t, ast.Subscript) and "self._pending_expr[parent_job]" in src(t.value) for t in n.ast.targets)]
-    look = [n for n in c2.nodes if n.kind == "stmt" and isinstance(n.ast, ast.Assign) and "self._pending_expr[parent_job].get(" in src(n.ast.value)]
+    # local aliases: `tbl = self._pending_expr[parent_job]`, `key = expr.get_hash()`
+    alias4 = {}
+    for a in ast.walk(ea):
+        if isinstance(a, ast.Assign) and len(a.targets) == 1 and isinstance(a.targets[0], ast.Name) and (src(a.value) == "self._pending_expr[parent_job]" or src(a.value) == "expr.get_hash()"):
+            alias4[a.targets[0].id] = src(a.value)
+
+    def res4(node) -> str:
+        return alias4.get(node.id, node.id) if isinstance(node, ast.Name) else src(node)
+
+    reg = [n for n in c2.nodes if n.kind == "stmt" and isinstance(n.ast, ast.Assign) and any(isinstance(t, ast.Subscript) and res4(t.value) == "self._pending_expr[parent_job]" for t in n.ast.targets)]
+    look = [
+        n
+        for n in c2.nodes
+        if n.kind == "stmt" and isinstance(n.ast, ast.Assign) and isinstance(n.ast.value, ast.Call) and isinstance(n.ast.value.func, ast.Attribute) and n.ast.value.func.attr == "get"
+        and res4(n.ast.value.func.value) == "self._pending_expr[parent_job]" and n.ast.value.args
+    ]
     if not reg or not look:
         raise AnalysisError("_evaluate_apply: lookup/registration of _pending_expr not found", "Scheduler._evaluate_apply")
-    regkey = src(reg[0].ast.targets[0].slice)
-    lookkey = src(look[0].ast.value.args[0])
+    regkey = res4(reg[0].ast.targets[0].slice)
+    lookkey = res4(look[0].ast.value.args[0])
     r4.check(regkey == lookkey == "expr.get_hash()", f"{m.rel}:Scheduler._evaluate_apply:key", f"lookup key `{lookkey}` and registration key `{regkey}` differ", m.rel, reg[0].lineno)
     # the duplicate arm returns the pending promise; every other path to the normal exit passes the registration
     dup_tests = [n for n in c2.nodes if n.kind == "test" and isinstance(n.ast, ast.Name) and n.ast.id in {src(t) for t in look[0].ast.targets}]
@@ -158,6 +172,38 @@ def run(ctx):
     dup_rets = [n for n in c2.nodes if n.kind == "stmt" and isinstance(n.ast, ast.Return) and any(c2.dominates(e, n) for e in te)]
     ok = bool(dup_rets) and all("pending_promise" in src(n.ast.value) for n in dup_rets)
     r4.check(ok, f"{m.rel}:Scheduler._evaluate_apply:duplicate-arm", "the duplicate arm does not return the pending promise of the first evaluation", m.rel, look[0].lineno)
+
+    # ---- C06.9 who may remove a registered expression -----------------------------------------------------
+    # The registration is what makes a second use of the same expression under the same parent return the first evaluation, also after that
+    # evaluation has finished (a later cond branch, seq element, recover).  The backend's CSE lookup hides an early removal for ordinary
+    # tasks but not for cache_scope=NONE / prov=False tasks, which would run a second time.
+    r9 = ctx.rule("C06.9", "entries of _pending_expr are removed only when the parent job is finalised (or the scheduler is cleared)", floor=2)
+    REMOVERS_OK = ("Scheduler._finalize_job", "Scheduler.clear")
+    for q, fn in m.funcs.items():
+        if not q.startswith("Scheduler.") or q.count(".") != 1:
+            continue
+        al = {a.targets[0].id for a in ast.walk(fn) if isinstance(a, ast.Assign) and len(a.targets) == 1 and isinstance(a.targets[0], ast.Name) and "self._pending_expr" in src(a.value)}
+
+        def on_table(e) -> bool:
+            return "self._pending_expr" in src(e) or (isinstance(e, ast.Name) and e.id in al) or (isinstance(e, ast.Subscript) and on_table(e.value))
+
+        for n in ast.walk(fn):
+            rem = None
+            if isinstance(n, ast.Delete):
+                for t in n.targets:
+                    if isinstance(t, ast.Subscript) and on_table(t.value):
+                        rem = t
+            elif isinstance(n, ast.Call) and isinstance(n.func, ast.Attribute) and n.func.attr in ("pop", "popitem", "clear") and on_table(n.func.value):
+                rem = n
+            if rem is not None:
+                r9.check(
+                    q in REMOVERS_OK,
+                    f"{m.rel}:{q}:removes-pending-expr",
+                    f"`{src(rem)}` drops a registered expression outside {REMOVERS_OK}: a later use of the same expression under the same parent job (a cond branch, a later seq element, a "
+                    "recover) is evaluated again instead of receiving the first evaluation -- visible for cache_scope=NONE / prov=False tasks, which then run twice",
+                    m.rel,
+                    rem.lineno,
+                )
 
     r5 = ctx.rule("C06.5", "the only exits that skip deduplication are cache_scope NONE and allowed_cache_results without CSE", floor=3)
     cpj = m.func("Scheduler._check_pending_job")
